@@ -128,6 +128,10 @@ def law_family():
             Cond(x, y, z), Cond(x, y, y), Cond(x, x, y), Cond(f, Mem(x), Mem(y)), Cond(Mem(x, 8), b, c), Cond(Op('==', x, y), C(1), C(0)),
             Comp((b, 0, 8), (c, 8, 16)), Comp((c, 0, 8), (b, 8, 16)), Comp((b, 0, 8), (Sl(x, 8, 32), 8, 32)), Comp((Sl(x, 0, 8), 0, 8), (Sl(y, 0, 24), 8, 32)), Comp((Sl(x, 0, 16), 0, 16), (Sl(y, 0, 16), 16, 32)),
             Comp((Mem(x, 8), 0, 8), (Mem(y, 8, fs), 8, 16)), Comp((x, 0, 32)), Comp((f, 0, 1), (Sl(x, 1, 32), 1, 32)), Comp((C(1, 8), 0, 8), (b, 8, 16), (w, 16, 32)),
+            # a concatenation that is directly a piece of another one (a traversal that flattens or drops a level changes the node)
+            Comp((Comp((b, 0, 8), (c, 8, 16)), 0, 16), (w, 16, 32)), Comp((w, 0, 16), (Comp((b, 0, 8), (c, 8, 16)), 16, 32)), Comp((Comp((w, 0, 16), (v, 16, 32)), 0, 32)),
+            Op('+', x, Comp((w, 0, 16), (Comp((b, 0, 8), (Sl(y, 8, 16), 8, 16)), 16, 32))), Mem(Comp((Comp((b, 0, 8), (c, 8, 16)), 0, 16), (Sl(x, 16, 32), 16, 32)), 8),
+            Sl(Comp((Comp((b, 0, 8), (c, 8, 16)), 0, 16), (w, 16, 32)), 4, 20), Cond(f, Comp((w, 0, 16), (Comp((b, 0, 8), (c, 8, 16)), 16, 32)), x),
             Aff(x, Op('+', y, C(1))), Aff(x, x), Aff(Mem(x), y), Aff(Mem(x, 32, fs), Op('+', Mem(y), z)), Aff(Mem(Op('+', x, y), 8, gs), b), Aff(b, Sl(x, 0, 8)), Aff(f, Sl(x, 31, 32)),
             Aff(Mem(x, 32, Sl(z, 0, 16)), y), Aff(x, Mem(Mem(y))), Aff(Mem(Mem(x)), y), Aff(Mem(x), Op('+', Mem(x), y)), Aff(Mem(x, 32, fs), Mem(x, 32, fs)), Aff(Mem(x, 8), Sl(Mem(x, 8), 0, 8)),
             Aff(Mem(Op('+', x, C(4))), Op('^', Mem(Op('+', x, C(4))), Mem(x)))]
